@@ -11,19 +11,28 @@ CONFIG = dict(
     rule=("(a) seeded random histories (3..25 ops quick, 3..40 thorough) over the complete public API of Individual and the "
           "collection helpers of population.rs on REAL individuals of Sphere / OneMax / TSP instances (pool of 6 distinct "
           "solutions; objective table recomputed with raw_f); 3 of 4 histories use the raw writers only with f(sol), 1 of 4 also "
-          "with foreign values (taint-tracked); (b) run level: all 21 templates x 3 parameter points x 4 instances x seeds x "
+          "with foreign values (taint-tracked); the histories include clone_from on single individuals, Vec::clone_from and "
+          "clone_from_slice with all four evaluated/unevaluated target/source combinations; (c) component level: every "
+          "solution-modifying component that can run on a prepared state (Saturation, Toroidal, Mirror, "
+          "CompleteOneTailedNormalCorrection, Normal/Uniform/PartialRandomSpread/BitFlip/PartialRandomBitstring/Swap/Scramble/"
+          "Inversion/Insertion/Translocation mutations, ParticleVelocitiesUpdate with prepared velocities (tiny < EPSILON, zero, "
+          "ordinary, mixed; positions near 0 / ordinary / outside), BlackHoleParticlesUpdate, EventHorizon, DEMutation, DE "
+          "crossovers, Arithmetic/Uniform/NPoint/Cycle crossover) executed on populations of EVALUATED individuals, dims 1..4, "
+          "every inside/outside mask of the coordinates, the masked individual first/middle/last: afterwards every still-evaluated "
+          "individual must carry raw_f(solution) bit-exactly (O) and the evaluated flags must match the component's kind (K); "
+          "(b) run level: all 21 templates x 3 parameter points x 4 instances x seeds x "
           "{seq,par}: after EVERY step every individual reachable from the state (all populations, best-so-far, elitist "
           "archive, PSO personal/global bests, CRO molecule bests) is re-evaluated with raw_f and compared bit-exactly; each "
           "leaf component's effect on the evaluated flags is compared with its model kind. Non-trivial: a history with a "
           "solution_mut / as_solutions_mut and an evaluation, or a template run; distinct = distinct canonical input."),
-    nontrivial=lambda inp: inp.startswith("(run") or (("solmut" in inp) and ("(eval" in inp or "(new " in inp)),
+    nontrivial=lambda inp: inp.startswith("(run") or inp.startswith("(comp") or (("solmut" in inp) and ("(eval" in inp or "(new " in inp)),
     trusted_base=[
         "solutions are abstract ids in the model; the harness maps real encodings to pool ids by equality",
         "raw_f (harness-side recomputation of the objective) is the reference for 'belongs to its solution'",
         "step observer hook (cfg mahf_verif); only state types that are public are audited (Populations, BestIndividual, "
         "ElitistArchive, pso::BestParticles/BestParticle, cro::ChemicalReaction)"],
     assumptions=["SplitMix64-seeded generators", "custom user components are outside the quantifier; a component's kind table entry is hand-written (its agreement with the code is K)"],
-    level_text=("Lean 4 theorems: Valid f i := cached objective (if any) = f sol; solution_mut_unevaluates, "
+    level_text=("Lean 4 theorems: Valid f i := cached objective (if any) = f sol; solution_mut_unevaluates, clone_from_is_assignment, "
                 "as_solutions_mut_unevaluates_all, individual_api_preserves_valid, raw_writers_valid_iff, "
                 "only_solution_mut_changes_sol, api_preserves_valid / api_outputs_valid / inplace_ops_keep_solutions for every API "
                 "operation, api_run_preserves_valid for every history (induction), step_preserves_valid for every modelled "
